@@ -167,6 +167,8 @@ def equal0(x, item):
     """MATCH type 0 equality."""
     if isinstance(x, str):
         return isinstance(item, str) and wild(x, item)
+    if isinstance(x, bool):
+        return isinstance(item, bool) and item == x          # a logical equals a logical only (TRUE <> 1)
     return isnum(item) and item == x
 
 
@@ -434,14 +436,16 @@ class Choose(Sub):
 # --------------------------------------------------------------------------
 # MATCH
 
-POOLS = {'n': [1, 2, 3], 't': ['a', 'ab', 'B', 'a?'], 'b': ['a', '[a]', 'b']}
+POOLS = {'n': [1, 2, 3], 't': ['a', 'ab', 'B', 'a?'], 'b': ['a', '[a]', 'b'],
+         'm': [1, 'a', True, 0]}      # mixed: a text, a number and a logical in one array (a header above numbers)
 LOOKUPS = {
     'n': [0, 1, 2, 3, 4, 2.5],
     't': ['a', 'A', 'ab', 'AB', 'aB', 'b', 'B', 'a?', 'A?', 'a*', '*', '?', '??', '*b', '?b', 'b*', '*?',
           'zz', 'z*', 'abc'],
     'b': ['a', '[a]', '[A]', 'b', '[a', '[*', '[?]', '?a?', '[ab]', 'zz'],
+    'm': [1, 'a', 'A', True, False, 0, 2, 'b', '1', '*', 'TRUE'],
 }
-MAXLEN = {'quick': {'n': 4, 't': 4, 'b': 3}, 'thorough': {'n': 6, 't': 5, 'b': 4}}
+MAXLEN = {'quick': {'n': 4, 't': 4, 'b': 3, 'm': 3}, 'thorough': {'n': 6, 't': 5, 'b': 4, 'm': 4}}
 FLAT_DL = ('var', 'litc', 'lits', 'rngflat')
 NESTED_DL = ('rngrow', 'rngcol')
 
@@ -491,7 +495,7 @@ class MatchExact(Sub):
     min_classes = 3
 
     def cases(self, tier, unit):
-        for pool in ('n', 't', 'b'):
+        for pool in ('n', 't', 'b', 'm'):
             for n in range(1, MAXLEN[tier][pool] + 1):
                 for items in itertools.product(POOLS[pool], repeat=n):
                     for dl in FLAT_DL + NESTED_DL:
@@ -612,7 +616,7 @@ class IndexMatch(Sub):
     min_classes = 2
 
     def cases(self, tier, unit):
-        for pool in ('n', 't', 'b'):
+        for pool in ('n', 't', 'b', 'm'):
             for n in range(1, MAXLEN[tier][pool] + 1):
                 for items in itertools.product(POOLS[pool], repeat=n):
                     for dl in FLAT_DL + NESTED_DL:
